@@ -41,8 +41,9 @@ ASSUMPTIONS = [
     "relations whose library evaluation takes the Log of a rotation within 1e-3 rad of a half turn (relative rotation "
     "of two poses, geodesic midpoint, lookAt frame) are skipped and counted: that band is the quantifier's own "
     "bound (angle <= pi-1e-3) applied to every rotation that is logged, and below 2e-5 it is C01-near-pi-log",
-    "lookAt: targets whose direction from the position is within 1e-3 rad of the world-Z line are outside the "
-    "domain (rotationFromVector's docstring: lookAt is not for 'colinear global Z cases')",
+    "lookAt: targets whose direction from the position is within 1e-6 rad of the world-Z line are outside the "
+    "domain (rotationFromVector's docstring: lookAt is not for 'colinear global Z cases'; the code handles exactly "
+    "vertical targets by nudging them, anything not colinear is computed directly and is accurate to ~1e-16/angle)",
     "numericalJacobian is compared with the analytic Jacobian at 1e-8*scale plus the Lagrange remainder "
     "h^2/6*sup|f'''| of the central difference, computed rigorously for each test function (zero for the "
     "log-coordinate and quadratic families)",
@@ -304,11 +305,11 @@ def mirror_cases(draw):
 @st.composite
 def lookat_cases(draw):
     a = draw(poses(9.99))
-    eps = 1e-3
+    eps = 1e-6       # only (numerically) colinear targets are outside the domain; "almost straight up" is inside
     polar = draw(st.one_of(
         G.floats(eps * 1.01, PI - eps * 1.01),
-        st.sampled_from([eps * 1.001, eps * 1.5, eps * 10, 0.1, PI / 2, PI / 4, 1.0, 2.0,
-                         PI - eps * 10, PI - eps * 1.5, PI - eps * 1.001]),
+        st.sampled_from([eps * 1.001, eps * 1.5, eps * 10, 1e-4, 5e-4, 0.999e-3, 1.001e-3, 1e-2, 0.1, PI / 2, PI / 4, 1.0,
+                         2.0, PI - 1e-2, PI - 1.001e-3, PI - 0.999e-3, PI - 1e-4, PI - eps * 10, PI - eps * 1.001]),
         G.log_uniform(eps * 1.001, 1.0),
         G.log_uniform(eps * 1.001, 1.0).map(lambda x: PI - x)))
     az = draw(st.one_of(G.floats(-PI, PI), st.sampled_from([0.0, PI / 2, PI, -PI / 2, PI / 4])))
@@ -383,6 +384,17 @@ def thetas(n):
 
 @st.composite
 def chain_cases(draw):
+    if draw(st.integers(0, 3)) == 0:
+        # a screw list typed by hand in whole numbers (axis-aligned axes through integer points), handed over as an
+        # INTEGER array, as np.array([[0,0,1,0,0,0],[0,1,0,-2,0,0],...]).T gives: the Jacobian is still real-valued
+        n = draw(st.integers(1, 7))
+        cols = []
+        for _ in range(n):
+            w = np.array(draw(st.sampled_from([(1, 0, 0), (0, 1, 0), (0, 0, 1), (-1, 0, 0), (0, -1, 0), (0, 0, -1)])))
+            q = np.array([draw(st.integers(-3, 3)) for _ in range(3)])
+            cols.append(np.concatenate([w, np.cross(q, w)]))
+        S = np.ascontiguousarray(np.stack(cols, axis=1).astype(np.int64))
+        return {"S": S, "theta": draw(thetas(n))}
     S = draw(G.chains(1, 7))
     return {"S": S, "theta": draw(thetas(S.shape[1]))}
 
@@ -523,9 +535,9 @@ def c_lookat(case, ctx):
     u = np.asarray(d / np.sqrt(d @ d), dtype=float)
     polar = math.atan2(math.hypot(u[0], u[1]), u[2])
     off_z = min(polar, PI - polar)
-    if off_z < 1e-3:
-        ctx.skip("target within 1e-3 rad of the world-Z line through the position (excluded by the docstring)")
-    ctx.label("off-Z " + ("<1e-2" if off_z < 1e-2 else "<0.1" if off_z < 0.1 else ">=0.1"))
+    if off_z < 1e-6:
+        ctx.skip("target (numerically) colinear with the world-Z line through the position: the documented exception")
+    ctx.label("off-Z " + ("<1e-4" if off_z < 1e-4 else "<1e-2" if off_z < 1e-2 else "<0.1" if off_z < 0.1 else ">=0.1"))
     ctx.label("dist 1e%d" % math.floor(math.log10(dn)))
     ctx.nontrivial(float(np.linalg.norm(a[:3])) >= 0.1 and off_z >= 1e-2 and np.count_nonzero(np.abs(u) > 1e-6) == 3)
     r = sut(fsr.lookAt, mk(a), mk(b))
@@ -829,7 +841,12 @@ def c_chain_jacobian(case, ctx):
     ctx.label("n=%d" % n)
     ctx.label("band" if in_band(*angs) else "no band")
     ctx.nontrivial(n >= 2 and any(x >= 1e-6 for x in angs))
-    J = np.asarray(sut(fsr.chainJacobian, np.ascontiguousarray(S, dtype=float), np.array(th, dtype=float)), dtype=float)
+    if np.issubdtype(S.dtype, np.integer):
+        ctx.label("integer-typed screw list")
+        J = np.asarray(sut(fsr.chainJacobian, S.copy(), np.array(th, dtype=float)), dtype=float)
+    else:
+        J = np.asarray(sut(fsr.chainJacobian, np.ascontiguousarray(S, dtype=float), np.array(th, dtype=float)), dtype=float)
+    S = np.asarray(S, dtype=float)
     want = O.jac_space(S, th)
     scale = max(1.0, float(np.abs(want).max()))
     close(J, want, tol(scale, *angs), "chainJacobian vs space Jacobian [S1, Ad(e^{S1 t1}) S2, ...]")
